@@ -16,6 +16,10 @@ type vhFakeConn struct {
 	written []byte
 	closed  bool
 	reads   int
+	// gate: when set, a Read at or beyond offset gateAfter blocks until the channel is closed (a response that is
+	// still on its way: the request is in flight)
+	gate      chan struct{}
+	gateAfter int
 }
 
 type vhAddr struct{}
@@ -28,6 +32,9 @@ func (c *vhFakeConn) Read(b []byte) (int, error) {
 	if c.closed {
 		return 0, io.ErrClosedPipe
 	}
+	if c.gate != nil && c.off >= c.gateAfter {
+		<-c.gate
+	}
 	if c.off >= len(c.data) {
 		if c.endErr != nil {
 			return 0, c.endErr
@@ -35,6 +42,9 @@ func (c *vhFakeConn) Read(b []byte) (int, error) {
 		return 0, io.EOF
 	}
 	avail := c.data[c.off:]
+	if c.gate != nil && c.off < c.gateAfter && len(avail) > c.gateAfter-c.off {
+		avail = avail[:c.gateAfter-c.off] // nothing beyond the gate is delivered early
+	}
 	if c.segment > 0 && len(avail) > c.segment {
 		avail = avail[:c.segment]
 	}
